@@ -104,9 +104,9 @@ Jobs_C19 ==
    \o Octaves("atan_index_aprox", 19, 46, NR(32, 512)) \o OctavesNeg("atan_index_aprox", 19, 46, NR(32, 512))
 
 (* ---- C20 ------------------------------------------------------------------------------------------ *)
-DegTagsG == <<"i8", "u8", "i16", "u16", "i32", "u32", "i64", "u64">>
+DegTagsG == IntTagsG
 Jobs_C20 ==
-   FlatSeq([i \in 1..8 |-> LET tg == DegTagsG[i]  t == TypeG(tg) IN
+   FlatSeq([i \in 1..NT |-> LET tg == DegTagsG[i]  t == TypeG(tg) IN
       (IF t.bits <= 16 THEN <<Sweep("a2r", tg, TMin(t), TMax(t), IF t.bits = 8 \/ Thorough THEN 1 ELSE 13)>>
        ELSE <<Sweep("a2r", tg, ZMax(TMin(t), ZN(-1200)), ZN(1200), 1)>> \o S2Q({Call("a2r", <<tg>>, <<n>>) : n \in IntLm(tg)}))
       \o <<Sweep("a2r", tg, ZMax(TMin(t), ZN(-3)), ZMin(TMax(t), ZN(363)), 1)>>
